@@ -634,17 +634,6 @@ LayeredOrthogonalEdgeList MinimumTerminalSpanningTree::
             continue;
         }
 
-        if (other->id.isConnPt() && !realVert->id.isDummyPinHelper() &&
-                (origTerminals.find(other) == origTerminals.end()) &&
-                (terminals.find(other) == terminals.end()))
-        {
-            // Don't lead the hyperedge through the vertices of connector
-            // endpoints or connection pins that are not its own terminals
-            // (pins are entered from the dummy vertex of a terminal only).
-            // Such vertices may lie inside shapes.
-            continue;
-        }
-
         VertInf *partner = (isRealVert) ? other : orthogonalPartner(other);
         COLA_ASSERT(partner);
 
@@ -771,6 +760,24 @@ void MinimumTerminalSpanningTree::constructInterleaved(void)
             VertInf *v = edge->second;
             EdgeInf *e = edge->first;
             double edgeDist = e->getDist();
+
+            // Don't grow the forest into the vertices of connector endpoints
+            // or connection pins that are not terminals of this hyperedge
+            // (pins are entered from the dummy vertex of a terminal only).
+            // Such vertices may lie inside shapes.
+            VertInf *realU = (u->id == dimensionChangeVertexID) ?
+                    u->m_orthogonalPartner : u;
+            VertInf *realV = (v->id == dimensionChangeVertexID) ?
+                    v->m_orthogonalPartner : v;
+            if (realU && realV && (realU != realV) && realV->id.isConnPt() &&
+                    !realV->id.isDummyPinHelper() &&
+                    !realU->id.isDummyPinHelper() &&
+                    (v->treeRoot() == nullptr) &&
+                    (origTerminals.find(realV) == origTerminals.end()) &&
+                    (terminals.find(realV) == terminals.end()))
+            {
+                continue;
+            }
 
             // Assign a distance (length) of 1 for dummy visibility edges
             // which may not accurately reflect the real distance of the edge.
